@@ -145,12 +145,13 @@ def run_property(pid, tier, conds, meta, obligations=None, seed=0):
     assumptions, rule, level_note.  obligations: list of E2 results
     dict(name, status('discharged'|'refuted'|'unknown'), seconds, detail, sig?, witness?)."""
     t_start = time.time()
-    workdir = os.path.join(VERIF, "work", "%s-%s" % (pid, tier))
+    workroot = os.environ.get("VERIF_WORKDIR") or os.path.join(VERIF, "work")
+    workdir = os.path.join(workroot, "%s-%s" % (pid, tier))
     shutil.rmtree(workdir, ignore_errors=True)
     os.makedirs(workdir)
-    replay_dir = os.path.join(VERIF, "work", "replays")
+    replay_dir = os.path.join(workroot, "replays")
     os.makedirs(replay_dir, exist_ok=True)
-    evdir = os.path.join(VERIF, "evidence")
+    evdir = os.environ.get("VERIF_EVIDENCE_DIR") or os.path.join(VERIF, "evidence")
     os.makedirs(evdir, exist_ok=True)
     problems = []  # machinery errors
     violations = []
